@@ -602,9 +602,17 @@ func (r *ChunkReader) resolveSeekPosition() error {
 
 	// Walk the branch nodes until we find the leaf node containing the
 	// seekPosition.
+	//
+	// Every node is at least 32 bytes long, so a walk that visits more than
+	// (CompressedSize / 32) nodes must be visiting some node twice: the index
+	// has a cycle (e.g. a branch node that lists itself as its own child).
 	cBias := int64(0)
 	dBias := int64(0)
-	for {
+	for depth := int64(0); ; depth++ {
+		if depth > (r.CompressedSize / 32) {
+			r.err = errInvalidIndexNode
+			return r.err
+		}
 		i := r.currNode.findChunkContaining(r.seekPosition, dBias)
 		if r.currNode.isLeaf(i) {
 			r.nextChunk = int32(i)
